@@ -62,6 +62,11 @@ type Link struct {
 type CtxDone struct {
 	cancelled int32
 	deadline  time.Time
+	// deaf: the transport currently has nobody watching the context (HTTP/2
+	// after the response headers, its request goroutine blocked reading a
+	// request body that is neither written nor closed): a finished context
+	// has no effect until that read returns.
+	deaf int32
 }
 
 //go:norace
@@ -70,11 +75,27 @@ func (c *CtxDone) Done(now time.Time) bool {
 	if c == nil {
 		return false
 	}
+	if c.deaf != 0 {
+		return false
+	}
 	if c.cancelled != 0 {
 		return true
 	}
 	return !c.deadline.IsZero() && !now.Before(c.deadline)
 }
+
+//go:norace
+//go:noinline
+func (c *CtxDone) SetDeaf(d bool) {
+	c.deaf = 0
+	if d {
+		c.deaf = 1
+	}
+}
+
+//go:norace
+//go:noinline
+func (c *CtxDone) Deaf() bool { return c.deaf != 0 }
 
 //go:norace
 //go:noinline
